@@ -105,7 +105,14 @@ type entry[TValue any] struct {
 }
 
 func newEntry[TValue any](i TValue) *entry[TValue] {
-	e := &entry[TValue]{expunged: new(TValue)}
+	// the sentinel must differ from every pointer a caller's value can have; for
+	// zero-size TValue all new(TValue) and &i share one address, so take the address
+	// of a field inside an allocation that is never zero-size.
+	sentinel := &struct {
+		v TValue
+		_ byte
+	}{}
+	e := &entry[TValue]{expunged: &sentinel.v}
 	e.p.Store(&i)
 	return e
 }
